@@ -169,12 +169,18 @@ inductive FTy
   /-- the same read with `toInt()` and no `ok` test: an unparsable or absent string yields 0, not "unset".
   (Not a well-formed type: "unset" does not survive a round trip.) -/
   | optIntZ (bits : Nat)
+  /-- `int` meaning "value, or unset when not positive": read with `toInt()` (garbage ⇒ 0), written when `> 0`
+  (`QXmppStanza::Error::code`).  Every non-positive number is the one value "unset". -/
+  | posInt (bits : Nat)
   /-- `bool`: true iff the string is one of `trues`; written as the first of them -/
   | flag (trues : List Str)
   /-- `std::optional<Enum>` via `enumFromString`: index into `names`, unknown ⇒ nullopt -/
   | enum (names : List Str)
   /-- `Enum` via `enumFromString(…).value_or(names[dflt])`: unknown or absent ⇒ the default member -/
   | enumD (names : List Str) (dflt : Nat)
+  /-- like `enum`, but the string is lower-cased before the lookup (`attribute(…).toLower()`, QXmppMucItem); the
+  names must be lower-case themselves (`FTy.wf`) -/
+  | enumL (names : List Str)
   /-- `QDateTime` as XEP-0082 text (`QXmppUtils::datetimeFromString` / `datetimeToString`, modelled by tier B in
   `Qx/Xml/Codec/Scalar.lean`).  The value is the UTC date-time, or nothing for an invalid one; a date-time
   that `datetimeToString` cannot print (year outside 1..9999) counts as nothing: the class writes an empty
@@ -198,6 +204,16 @@ inductive Val
   | list (items : List Val)
   deriving Repr, BEq, Inhabited
 
+/-- `QString::toLower()` as far as it matters for a comparison with an all-ASCII lower-case name: `A`–`Z` and
+U+212A KELVIN SIGN are the only characters whose lower-case form is an ASCII character -/
+def lowerChar (c : Char) : Char :=
+  if 65 ≤ c.toNat ∧ c.toNat ≤ 90 then Char.ofNat (c.toNat + 32) else if c.toNat = 0x212A then 'k' else c
+def lowerStr (s : Str) : Str := s.map lowerChar
+
+def posOfSigned : Option (Bool × Nat) → Option Nat
+  | some (neg, m) => if neg || m == 0 then none else some m
+  | none => none
+
 /-- string → value; `[]` stands for "absent" as well (`QDomElement::attribute` of a missing
 attribute and `text()` of a null element are both empty) -/
 def FTy.parse : FTy → Str → Val
@@ -206,9 +222,11 @@ def FTy.parse : FTy → Str → Val
   | .optNat b, s => .opt (strictNat b s)
   | .optInt b, s => .opt (countOfSigned none (strictInt b s))
   | .optIntZ b, s => .opt (countOfSigned (some 0) (strictInt b s))
+  | .posInt b, s => .opt (posOfSigned (strictInt b s))
   | .flag ts, s => .flag (ts.contains s)
   | .enum ns, s => .opt (idxOf s ns)
   | .enumD ns d, s => .nat (match idxOf s ns with | some i => i | none => d)
+  | .enumL ns, s => .opt (idxOf (lowerStr s) ns)
   | .b64, s => .str (strOfBytes (b64dec s))
   | .dateTime, s => .dt ((Scalar.dtParseCode s).filter fun d => decide (Scalar.ValidDt d))
 
@@ -219,9 +237,11 @@ def FTy.show : FTy → Val → Str
   | .optNat _, .opt (some n) => natToStr n
   | .optInt _, .opt (some n) => natToStr n
   | .optIntZ _, .opt (some n) => natToStr n
+  | .posInt _, .opt (some n) => natToStr n
   | .flag ts, .flag true => ts.headD []
   | .enum ns, .opt (some i) => nth ns i
   | .enumD ns _, .nat i => nth ns i
+  | .enumL ns, .opt (some i) => nth ns i
   | .b64, .str s => b64enc (bytesOf s)
   | .dateTime, .dt (some d) => Scalar.dtToStr d
   | _, _ => []
@@ -234,9 +254,11 @@ def FTy.isDefault : FTy → Val → Bool
   | .optNat _, .opt i => i.isNone
   | .optInt _, .opt i => i.isNone
   | .optIntZ _, .opt i => i.isNone
+  | .posInt _, .opt i => i.isNone
   | .flag _, .flag b => !b
   | .enum _, .opt i => i.isNone
   | .enumD _ d, .nat i => i == d
+  | .enumL _, .opt i => i.isNone
   | .b64, .str s => s.isEmpty
   | .dateTime, .dt d => d.isNone
   | _, _ => true
@@ -251,10 +273,14 @@ def FTy.canon : FTy → Val → Bool
   | .optInt b, .opt (some n) => n < 2 ^ b
   | .optIntZ _, .opt Option.none => true
   | .optIntZ b, .opt (some n) => n < 2 ^ b
+  | .posInt _, .opt Option.none => true
+  | .posInt b, .opt (some n) => 0 < n && n < 2 ^ b
   | .flag _, .flag _ => true
   | .enum _, .opt Option.none => true
   | .enum ns, .opt (some i) => i < ns.length
   | .enumD ns d, .nat i => i < ns.length || i == d
+  | .enumL _, .opt Option.none => true
+  | .enumL ns, .opt (some i) => i < ns.length
   | .b64, .str s => s.all fun c => c.toNat < 256
   | .dateTime, .dt Option.none => true
   | .dateTime, .dt (some d) => decide (Scalar.ValidDt d)
@@ -265,6 +291,7 @@ def FTy.wf : FTy → Bool
   | .flag ts => !ts.isEmpty && !ts.contains []
   | .enum ns => !ns.contains [] && nodupB ns
   | .enumD ns _ => !ns.contains [] && nodupB ns
+  | .enumL ns => !ns.contains [] && nodupB ns && ns.all fun n => lowerStr n == n
   | .optIntZ _ => false
   | _ => true
 
@@ -296,6 +323,11 @@ structure Head where
   another namespace hides later ones and reads as absent (`el.firstChildElement("set")` followed by
   `if (set.namespaceURI() == ns_rsm)`); only meaningful with `anyNs` on a `child` field -/
   nsAfter : Bool := false
+  /-- the parser loops over ALL matching children and keeps what the last one says (`for (… : iterChildElements(el))
+  { if (tag == …) x = …; }`); otherwise the first match counts (`firstChildElement`) -/
+  last : Bool := false
+  /-- constant attributes the writer adds and the parser never reads (`xml:lang="en"` on the error text) -/
+  extra : List (Str × Str) := []
   deriving Repr, BEq, DecidableEq
 
 def xmlnsKey : Str := "xmlns".toList
@@ -303,7 +335,11 @@ def xmlnsKey : Str := "xmlns".toList
 def nsAttr (decl : Bool) (ns : Str) : List (Str × Str) := if decl then [(xmlnsKey, ns)] else []
 
 def Head.mk' (h : Head) (as : List (Str × Str)) (ks : List Node) : Node :=
-  .elem h.tag (nsAttr h.decl h.ns ++ as) ks
+  .elem h.tag ((nsAttr h.decl h.ns ++ h.extra) ++ as) ks
+
+/-- the child a lookup settles on: the first match, or the last one for "last match wins" loops -/
+def pickChild (last : Bool) (p : Node → Bool) (kids : List Node) : Option Node :=
+  if last then (kids.filter p).getLast? else kids.find? p
 
 /-- `firstChildElement(parent, tag, ns)`'s test on one child; `pns` = namespace of the parent -/
 def Head.matches (h : Head) (pns : Str) (k : Node) : Bool :=
@@ -312,6 +348,10 @@ def Head.matches (h : Head) (pns : Str) (k : Node) : Bool :=
 /-- `firstChildElement(parent, {}, ns)`'s test (any tag) -/
 def matchesNs (ns : Str) (anyNs : Bool) (pns : Str) (k : Node) : Bool :=
   k.isElem && (anyNs || k.nsOf pns == ns)
+
+/-- the children a `tagChild` field considers -/
+def tagCand (ns : Str) (anyNs : Bool) (names skip : List Str) (knownOnly : Bool) (pns : Str) (k : Node) : Bool :=
+  k.isElem && (anyNs || k.nsOf pns == ns) && !skip.contains k.name && (!knownOnly || names.contains k.name)
 
 /-- a null `QDomElement` -/
 def nullNode : Node := .elem [] [] []
@@ -338,6 +378,12 @@ inductive Field
   child element in namespace `ns` (any namespace when `anyNs`) is looked up in `names`;
   `mandatory`: `fromDom` rejects the element when no known name is found -/
   | enumChild (ns : Str) (decl anyNs : Bool) (names : List Str) (mandatory : Bool)
+  /-- optional child whose TAG is a value, with more lookup rules than `enumChild` and an optional text payload
+  (`<error><gone xmlns=…>uri</gone></error>`, `<reason><success/></reason>`).  Candidates are the child elements in
+  namespace `ns` (any namespace when `anyNs`) whose tag is not in `skip` and, when `knownOnly`, is one of `names`; the
+  first candidate counts, or the last one when `last`.  Its tag is looked up in `names` (unknown ⇒ unset); its text is
+  kept when the value is one of `textFor` (indices into `names`).  Value: `.record [.opt index, .str text]`. -/
+  | tagChild (ns : Str) (decl anyNs : Bool) (names skip : List Str) (knownOnly last : Bool) (textFor : List Nat)
   /-- nested record / wrapper -/
   | child (h : Head) (fields : List Field) (mode : ChildMode)
   /-- repeated items (`iterChildElements(el, tag, ns)`); `nonEmpty`: `fromDom` rejects the element
@@ -374,6 +420,10 @@ mutual
       match v with
       | .opt (some i) => ([], [.elem (nth names i) (nsAttr decl ns) []])
       | _ => ([], [])
+    | .tagChild ns decl _ names _ _ _ _, v =>
+      match v with
+      | .record [.opt (some i), .str t] => ([], [.elem (nth names i) (nsAttr decl ns) (textNode t)])
+      | _ => ([], [])
     | .child h fs mode, v =>
       match v with
       | .record vs =>
@@ -405,8 +455,15 @@ mutual
       match x.kids.find? (matchesNs ns anyNs pns) with
       | some k => .opt (idxOf k.name names)
       | none => .opt none
+    | .tagChild ns _ anyNs names skip knownOnly last textFor =>
+      match pickChild last (tagCand ns anyNs names skip knownOnly pns) x.kids with
+      | some k =>
+        match idxOf k.name names with
+        | some i => .record [.opt (some i), .str (if textFor.contains i then deepText k else [])]
+        | none => .record [.opt none, .str []]
+      | none => .record [.opt none, .str []]
     | .child h fs mode =>
-      match (x.kids.find? (h.matches pns)).filter (fun k => !h.nsAfter || k.nsOf pns == h.ns) with
+      match (pickChild h.last (h.matches pns) x.kids).filter (fun k => !h.nsAfter || k.nsOf pns == h.ns) with
       | some k => .record (decFs (k.nsOf pns) k fs)
       | none => if mode == .optional then .absent else .record (decFs h.ns nullNode fs)
     | .many h fs _ =>
@@ -427,6 +484,11 @@ mutual
       match v with
       | .opt none => true
       | .opt (some i) => i < names.length
+      | _ => false
+    | .tagChild _ _ _ names _ _ _ textFor, v =>
+      match v with
+      | .record [.opt none, .str t] => t.isEmpty
+      | .record [.opt (some i), .str t] => i < names.length && (t.isEmpty || textFor.contains i)
       | _ => false
     | .child _ fs mode, v =>
       match v with
@@ -453,6 +515,7 @@ def Field.heads : Field → List (Str × Str)
   | .attrReadOnly .. => []
   | .text _ => []
   | .enumChild ns _ _ names _ => names.map fun n => (n, ns)
+  | .tagChild ns _ _ names _ _ _ _ => names.map fun n => (n, ns)
   | .child h _ _ => [(h.tag, h.ns)]
   | .many h _ _ => [(h.tag, h.ns)]
 
@@ -467,6 +530,7 @@ def Field.sees (pns : Str) : Field → Node → Bool
   | .attrReadOnly .., _ => false
   | .text _, _ => true
   | .enumChild ns _ anyNs _ _, k => matchesNs ns anyNs pns k
+  | .tagChild ns _ anyNs names skip knownOnly _ _, k => tagCand ns anyNs names skip knownOnly pns k
   | .child h _ _, k => h.matches pns k
   | .many h _ _, k => h.matches pns k
 
@@ -497,6 +561,11 @@ def indep (f g : Field) : Bool :=
     match g with
     | .text _ => false
     | _ => g.heads.all fun hd => !(anyNs || hd.2 == ns)
+  | .tagChild ns _ anyNs names skip knownOnly _ _ =>
+    match g with
+    | .text _ => true
+    | _ => g.heads.all fun hd =>
+      !((anyNs || hd.2 == ns) && !skip.contains hd.1 && (!knownOnly || names.contains hd.1))
   | .child h _ _ =>
     match g with
     | .text _ => true
@@ -509,14 +578,20 @@ def indep (f g : Field) : Bool :=
 /-- the child ends up in namespace `h.ns` when written inside an element of namespace `pns` -/
 def Head.ok (pns : Str) (h : Head) : Bool := h.decl || h.ns == pns
 
+/-- the constant attributes are not `xmlns` and no field of the element reads them -/
+def Head.extraOk (h : Head) (fs : List Field) : Bool :=
+  h.extra.all fun kv => kv.1 != xmlnsKey && fs.all fun f => !f.reads kv.1
+
 mutual
   def wfF (pns : Str) : Field → Bool
     | .attr name ty _ => name != xmlnsKey && ty.wf
     | .attrReadOnly _ _ => false
     | .text ty => ty.wf
     | .enumChild ns decl _ names _ => (decl || ns == pns) && !names.contains [] && nodupB names
-    | .child h fs _ => h.ok pns && wfFs h.ns fs
-    | .many h fs _ => h.ok pns && wfFs h.ns fs
+    | .tagChild ns decl _ names skip _ _ _ =>
+      (decl || ns == pns) && !names.contains [] && nodupB names && names.all fun n => !skip.contains n
+    | .child h fs _ => h.ok pns && h.extraOk fs && wfFs h.ns fs
+    | .many h fs _ => h.ok pns && h.extraOk fs && wfFs h.ns fs
   def wfFs (pns : Str) : List Field → Bool
     | [] => true
     | f :: fs => wfF pns f && fs.all (fun g => indep f g && indep g f) && wfFs pns fs
@@ -576,6 +651,7 @@ mutual
     | .attr n ty o => .attr n ty o
     | .text ty => .text ty
     | .enumChild ns d a names m => .enumChild ns d a names m
+    | .tagChild ns d a names sk ko l tf => .tagChild ns d a names sk ko l tf
   def fixFs : List Field → List Field
     | [] => []
     | f :: fs => fixF f :: fixFs fs
@@ -596,6 +672,7 @@ mutual
     | .attr .., v => v
     | .text _, v => v
     | .enumChild .., v => v
+    | .tagChild .., v => v
   def resetFs : List Field → List Val → List Val
     | [], vs => vs
     | _ :: _, [] => []
@@ -624,7 +701,7 @@ structure Schema where
 
 def Schema.WF (S : Schema) : Prop :=
   S.head.ok S.inh = true ∧ S.head.tag ≠ [] ∧ wfFs S.head.ns S.fields = true
-    ∧ mandPlacedFs S.fields = true
+    ∧ mandPlacedFs S.fields = true ∧ S.head.extraOk S.fields = true
 
 instance (S : Schema) : Decidable S.WF := by unfold Schema.WF; infer_instance
 
